@@ -39,7 +39,7 @@ static int expect_throw; static var expect_exc; static var* old_items;
 static int state_unchanged(void) {
   if (t->items != old_items) return 0;
   for (int i = 0; i <= N; i++) if (t->items[i] != old_item[i]) return 0;
-  return HDR(t)->type == Tuple && HDR(t)->alloc == (var)(intptr_t)(HEAP ? AllocHeap : AllocStack);
+  return HDR(t)->type == Tuple && HDR(t)->alloc == (var)(intptr_t)(HEAP == 2 ? AllocData : HEAP ? AllocHeap : AllocStack);
 }
 void cv_on_throw(var obj) {
   if (obj == OutOfMemoryError) return;
@@ -48,7 +48,7 @@ void cv_on_throw(var obj) {
   ASSERT(state_unchanged(), "[C12][C19] a failed operation leaves the Tuple exactly as it was (items, order, storage)");
 }
 static void arbitrary_tuple(void) {
-  t = (struct Tuple*)header_init(&TO.h, Tuple, HEAP ? AllocHeap : AllocStack);
+  t = (struct Tuple*)header_init(&TO.h, Tuple, HEAP == 2 ? AllocData : HEAP ? AllocHeap : AllocStack);      /* HEAP=2: a Tuple stored by value inside a container */
   if (HEAP) { t->items = malloc(sizeof(var) * (N + 1)); __CPROVER_assume(t->items != NULL); } else { t->items = stack_items; }
   for (int i = 0; i < N; i++) { header_init(&E[i].h, ELEM, AllocStack); in_v[i] = nondet_long(); E[i].v.val = in_v[i]; E[i].v.tok = 0; t->items[i] = &E[i].v; }
   if (DUP && N >= 2) { t->items[N - 1] = t->items[0]; in_v[N - 1] = in_v[0]; }
